@@ -14,6 +14,7 @@ EXPLANATION = (
     "with the shape they return; (ORDER) the matched-note table and the decoder both sort by lexsort((pitch, onset)) — "
     "onset primary; (F8b/ROWRANK) no int() of rank-1 arrays in get_matched_notes and only scalars are packed into the "
     "matched-note rows; (F4a) row tuple vs dtype list of to_matched_score."
+    ' (F9a-mask) the parallel arrays sliced from the matched-index table are filtered together.'
 )
 NOT_DECIDED = [
     "decode(encode(x)) = x within single precision (numeric)", "interpolation of the time maps through chords (numeric)",
